@@ -56,9 +56,11 @@ def process_signature(app, what, name, obj, options,
         obj = _util.safe_get(obj, object(), type(parent))
     try:
         sig = specifiers.signature(obj).evaluated()
-    except (TypeError, ValueError):
+    except (TypeError, ValueError, AttributeError):
         # inspect.signature raises ValueError if obj is callable but it can't
         # determine a signature, eg. built-in objects
+        # AttributeError: a forwards_to_method/forwards_to_super declaration
+        # looked up its target on the placeholder instance used above
         return sig, return_annotation
     ret_annot = sig.return_annotation
     if ret_annot != sig.empty:
